@@ -16,13 +16,19 @@ prefix length k, both stream kinds, eager and lazy, no address translation):
    the header is all-zero or identical, the data pointer null or the same bytes, and (for equal name
    offsets) the section name empty or the same string;
  * `prefix_load_safe`: memory safety is C01 instantiated.
-Partial (what is NOT a theorem, covered by correspondence + oracle only): the NAME of a *zeroed*
-section — it is the string at offset 0 of the name table, which is empty only when the table starts
-with NUL (the single place where well-formedness of the image enters; missing step: a hypothesis
-"the name table's first byte is NUL" carried through `namesPure_names` for the `SecRel.zero` case) —
-and the table read-outs of the accessor classes (symbols, notes, dynamic, ...: functions of the
-section data and header fields proved equal-or-absent here; their models belong to the accessor
-families).
+The NAME of a *zeroed* section (name offset 0: the string at offset 0 of the name table) is covered by
+`prefix_sound_zero_name` (Props/C17.lean: `namesPure_zero_names` carries the hypothesis through the name
+resolution step for the `SecRel.zero` case; `prefix_sound_core` threads it through the phases): if the
+section-name table of the COMPLETE load starts with a NUL byte (`NameTableNulFirst rf`, decidable; the
+single place where well-formedness of the image enters) every zeroed section of the prefix run has the
+empty name.  `Compose.prefix_sound_names` (Props/Compose.lean) states it on the image: for a
+C02-well-formed image whose section-name string table starts with NUL (`NameTableNul img`, decidable,
+specification vocabulary — the gABI's "index zero holds a null character") every section of every
+successfully loaded prefix has the empty name or the name the complete file gives it.  Non-vacuity:
+`img272` (section header table last; prefix 250 has a zeroed section next to the resident name table).
+Partial (what is NOT a theorem, covered by correspondence + oracle only): the table read-outs of the
+accessor classes (symbols, notes, dynamic, ...: functions of the section data and header fields proved
+equal-or-absent here; their models belong to the accessor families).
 Correspondence + oracle: every prefix (quick: a stratified sample plus all lengths around table
 and data boundaries; thorough: every length) of encoder-built images and small examples, eager and
 lazy; the oracle compares the prefix's observation with the complete file's observation, field by
@@ -40,7 +46,13 @@ THEOREMS = ["ElfioVerif.C17.read_prefix", "ElfioVerif.C17.isolatedRead_prefix",
             "ElfioVerif.C17.secLoad_sim", "ElfioVerif.C17.segLoad_sim", "ElfioVerif.C17.loadSectionsLoop_sim",
             "ElfioVerif.C17.namesPure_sim", "ElfioVerif.C17.namesPure_names", "ElfioVerif.C17.loadSegmentsLoop_sim",
             "ElfioVerif.C17.prefix_sound", "ElfioVerif.C17.prefix_sound_section",
-            "ElfioVerif.C17.prefix_sound_segment"]
+            "ElfioVerif.C17.prefix_sound_segment",
+            "ElfioVerif.C17.namesPure_zero_names",
+            "ElfioVerif.C17.prefix_sound_core",
+            "ElfioVerif.C17.prefix_sound_zero_name",
+            "ElfioVerif.Compose.nameTableNulFirst_of_image",
+            "ElfioVerif.Compose.prefix_sound_names"]
+EXTRA_IMPORTS = ["ElfioVerif.Props.Compose"]
 SITES = ["conv", "load_s", "sec32_load", "sec64_load", "seg32_load", "seg64_load"]
 RULE = ("(image, k): object 0 loads the complete well-formed image, object 1 its prefix of length k, both "
         "observed identically; images from tools/elfspec.py in 4 configurations and small bundled examples; "
